@@ -428,6 +428,26 @@ def run_reported_limits(params, known):
                     v = Violation(PROP, 'negotiation', 'reported-parameters-differ-from-announced', dict(), '%r: %s' % (case, found)).as_dict()
                     v['case'] = case
                     violations.append(v)
+    # node IDs outside ASCII (two and three octets per character), long ones, with a keepalive to negotiate
+    for role in ('passive', 'active'):
+        for nid in ('dtn://k\u00f6ln/', 'dtn://\u8282\u70b9/x', 'dtn://n\u0153ud-\u00e9/', 'dtn://' + 'a' * 249 + '/', 'ipn:977000.3.0'):
+            count += 1
+            case = dict(role=role, peer_node_id=nid)
+            w = PeerWorld(dict(role=role, keepalive=9, seg_mru=64, tx_init=64))
+            w.peer_write(T.enc_contact(0) + T.enc_sess_init(4, 64, 1000, nid.encode('utf-8')))
+            w.quiesce()
+            prm = w.bus_call(w.proc, RPATH, 'get_session_parameters', iface=RIFACE)
+            found = None
+            if w.escaped:
+                found = 'escaped %s: %s' % (w.escaped[-1][0], w.escaped[-1][2])
+            elif w.handler().get_session_state() != 'established':
+                found = 'session not established (state %r)' % (w.handler().get_session_state(),)
+            elif prm[0] != 'ok' or str(prm[1].get('peer_nodeid')) != nid or int(prm[1].get('keepalive', -1)) != 4:
+                found = 'reported %r' % (prm[1] if prm[0] == 'ok' else prm,)
+            if found and len(violations) < 4:
+                v = Violation(PROP, 'negotiation', 'reported-parameters-differ-from-announced', dict(node_id='not ascii'), '%r: %s' % (case, found)).as_dict()
+                v['case'] = case
+                violations.append(v)
     return dict(name='reported-limits', evaluations=count, violations=violations, known=[], samples=[])
 
 
